@@ -252,14 +252,20 @@ def run_case(case, ctx):
             c = make_circuit(ctx, ctx.rng("C19", case["salt"]), case["salt"])
             R = recipes(cg, c, r, tmpdir)
             continue
+        frozen_any = False
         for k, rc in enumerate(circuits_in(res)[:3]):
+            if frozen_any:
+                break
             if rc is c:
                 # the same object was returned: not a copy; editing it edits the argument by definition
                 evs.append({"kind": "alias", "fn": fn, "side": "result", "edit": "identity", "before": before,
                             "after": dict(before, name=before["name"] + "<same object returned>"), "xb": xb, "xa": xa, "nontrivial": True})
                 continue
             arg = c.copy() if False else c
+            frozen = False
             for side in ("result", "arg"):
+                if frozen:
+                    break
                 target, other = (rc, arg) if side == "result" else (arg, rc)
                 for ed in EDITS:
                     ob, oxb = snap(other)
@@ -272,18 +278,24 @@ def run_case(case, ctx):
                             evs.append({"kind": "frame", "fn": fn, "raised": "", "before": before,
                                         "after": dict(before, name=before["name"] + "<argument can no longer be edited: %s>" % ex),
                                         "xb": xb, "xa": xa, "nontrivial": True})
+                            frozen = frozen_any = True
+                            break
                     oa, oxa = snap(other)
                     if (ob, oxb) != (oa, oxa) or r.random() < 0.15:
                         evs.append({"kind": "alias", "fn": fn, "side": side, "edit": ed, "before": ob, "after": oa,
                                     "xb": oxb, "xa": oxa, "nontrivial": True})
                     ctx.count("edits")
-                    if side == "arg":
+                    if side == "arg" and not frozen:
                         # restore the argument so that the sweep goes on with the same circuit
                         target.graph.clear()
                         target.graph.update(tcopy_g)
                         target.graph.graph.update(tcopy_g.graph)
                         target.blackboxes.clear()
                         target.blackboxes.update(tcopy_b)
+        if frozen_any:
+            # go on with a fresh circuit
+            c = make_circuit(ctx, ctx.rng("C19", case["salt"]), case["salt"])
+            R = recipes(cg, c, r, tmpdir)
     return evs
 
 
